@@ -945,6 +945,11 @@ func (fr *frame) applyContractSig(st *State, call *ast.CallExpr, name string, si
 	// modifies
 	allocates := c.Flags["allocates"] == "true"
 	for _, cl := range c.Clauses {
+		if cl.Kind == "ensures" && strings.Contains(cl.Text, "fresh(") {
+			allocates = true // a callee that returns fresh objects allocates
+		}
+	}
+	for _, cl := range c.Clauses {
 		if cl.Kind == "modifies" {
 			for _, loc := range cl.Locs {
 				for _, ml := range preEnv.evalModLoc(loc) {
@@ -984,6 +989,11 @@ func (fr *frame) applyContractSig(st *State, call *ast.CallExpr, name string, si
 		}
 	}
 	fc.ghostHook(st, fr, call, name, env2.vars)
+	// vacuity guard: the assumed postcondition must not contradict what is known at the call site
+	if !st.dead {
+		fc.obls = append(fc.obls, &Obligation{Name: fmt.Sprintf("%s/%scover.after@%s#%d", fc.name, fr.prefix, name, ord),
+			Hyps: append([]*Term(nil), st.pc...), Goal: TTrue, Kind: "cover", Func: fc.name, Expect: "sat"})
+	}
 	return results
 }
 
